@@ -124,6 +124,9 @@ func c17Shrink(kind string, raw []byte) [][]byte {
 			}
 		}
 	}
+	if kind == "manifest" {
+		out = append(out, c17ShrinkForm(raw)...)
+	}
 	return append(out, shrinkJSON(kind, raw)...)
 }
 
